@@ -189,7 +189,7 @@ def main(run):
             run.violation(f'borrow-hash|{A}|{B}', f'{im["file"]}:{im["line"]} impl Borrow<{B}> for {A}: hash({A}) and hash(borrowed {B}) feed different value shapes to the hasher '
                           f'({d}) — a HashMap/HashSet keyed by {A} cannot be looked up through &{B}', {'shape_a': keys.show_shape(sa), 'shape_b': keys.show_shape(sb)})
     from .. import crosscmp
-    crosscmp.check(run, P, ctx, ('PartialEq', 'PartialOrd'))
+    crosscmp.check(run, P, ctx, ('PartialEq', 'PartialOrd', 'Ord'))
     run.floor('cross_type_comparisons', 100, 'PartialEq / PartialOrd impls between two different library types')
     # the two families compare alike: twins of every eq / cmp / partial_cmp / hash have the same callees, constants and branches AND apply them
     # to the same arguments (a `self`/`other` swap in one family keeps each family's order total but makes Borrow<Iri> lookups in a
